@@ -175,7 +175,7 @@ def call_nn(sg, op, a, T, variant=0):
         red = a["red"]
         if op in ("nll", "ce"):
             tgt = sg.Tensor(np.array(a["labels"], dtype=np.int64))
-            AUX.append(("labels", tgt, tgt.data.tobytes()))
+            AUX.append(("labels", tgt, RC.snap(tgt)))
         else:
             tgt = T[1]
         if red == "functional":
@@ -261,8 +261,8 @@ class NNReplayer(RC.CatalogReplayer):
             rm = sg.Tensor(np.array([float(Fraction(q[0], q[1])) for q in case["rm"]], dtype=x.data.dtype))
             rv = sg.Tensor(np.array([float(Fraction(q[0], q[1])) for q in case["rv"]], dtype=x.data.dtype))
             if not a["training"]:
-                AUX.append(("running_mean", rm, rm.data.tobytes()))
-                AUX.append(("running_var", rv, rv.data.tobytes()))
+                AUX.append(("running_mean", rm, RC.snap(rm)))
+                AUX.append(("running_var", rv, RC.snap(rv)))
         eps = float(Fraction(case["eps"][0], case["eps"][1]))
         return sg.nn.functional.batch_norm(x, w, b, rm, rv, training=a["training"], momentum=0.1, eps=eps)
 
